@@ -187,6 +187,59 @@ def gen_submodules(seed):
 
 
 # --------------------------------------------------------------------------
+# special files: what os.walk lists among the files of a directory but is no regular file
+
+
+def gen_specials(seed, kind, files):
+    """-> [(relative path, "fifo" | "socket" | "chardev", covered?)]: one to three special files next to the files of the tree
+    (the first always in the root or in src/, so that at least one is a covered file; now and then one below subprojects/x/,
+    which is not covered).  Nothing ever opens them: the tool reports a covered one as a read error without touching it."""
+    rng = random.Random("c14-specials:%s:%s" % (seed, kind))
+    dirs = sorted({os.path.dirname(p) for p in files if not p.startswith(("LICENSES/", ".reuse/"))} | {"", "src"})
+    inside = [d for d in dirs if "subprojects" not in d.split("/")[:-1]]
+    names = ["control.fifo", "run.sock", "pipe", "named pipe.py", "null.dev", "\u00fc.fifo", "events", "x.c"]
+    out, seen = [], set()
+    for i in range(rng.randint(1, 3)):
+        d = rng.choice(["", "src"]) if i == 0 else rng.choice(inside + inside + dirs)
+        p = (d + "/" if d else "") + rng.choice(names)
+        if p in seen or p in files:
+            continue
+        seen.add(p)
+        out.append((p, rng.choice(["fifo", "fifo", "socket", "chardev"]), d in inside))
+    return out
+
+
+def make_special(root, rel, what):
+    """create the special file; -> what was made (a character device needs privileges the sandbox may lack: then a FIFO)"""
+    import socket
+    import stat
+    full = os.path.join(root, rel)
+    os.makedirs(os.path.dirname(full), exist_ok=True)
+    if what == "chardev":
+        try:
+            os.mknod(full, 0o600 | stat.S_IFCHR, os.makedev(1, 3))
+            return what
+        except OSError:
+            what = "fifo"
+    if what == "socket":
+        old = os.getcwd()
+        os.chdir(os.path.dirname(full))          # the address of a UNIX socket is limited to about a hundred bytes
+        try:
+            sk = socket.socket(socket.AF_UNIX)
+            try:
+                sk.bind(os.path.basename(full))
+            finally:
+                sk.close()
+            return what
+        except OSError:
+            what = "fifo"
+        finally:
+            os.chdir(old)
+    os.mkfifo(full)
+    return what
+
+
+# --------------------------------------------------------------------------
 # normaliser
 
 
@@ -299,14 +352,52 @@ def spawn_seed(cwd, root_arg, flags, hashseed):
     env = dict(os.environ)
     env["PYTHONHASHSEED"] = str(hashseed)
     return subprocess.Popen([PY, os.path.abspath(__file__), cwd, root_arg or "-"] + list(flags),
-                            stdout=subprocess.PIPE, stderr=subprocess.DEVNULL, env=env, cwd=cwd)
+                            stdout=subprocess.PIPE, stderr=subprocess.DEVNULL, env=env, cwd=cwd, start_new_session=True)
 
 
 def spawn_cli(cwd, args, hashseed):
     """the genuine entry point: python -m reuse …"""
     env = dict(os.environ)
     env["PYTHONHASHSEED"] = str(hashseed)
-    return subprocess.Popen([PY, "-m", "reuse"] + list(args), stdout=subprocess.PIPE, stderr=subprocess.DEVNULL, env=env, cwd=cwd)
+    return subprocess.Popen([PY, "-m", "reuse"] + list(args), stdout=subprocess.PIPE, stderr=subprocess.DEVNULL, env=env, cwd=cwd,
+                            start_new_session=True)
+
+
+def collect(proc, deadline):
+    """the standard output of a child started by spawn_seed / spawn_cli, or None when it has not finished by `deadline`
+    (time.time() value): then its whole process group — the child runs in a session of its own — is killed"""
+    import signal
+    import time
+    try:
+        return proc.communicate(timeout=max(deadline - time.time(), 1.0))[0]
+    except subprocess.TimeoutExpired:
+        try:
+            os.killpg(proc.pid, signal.SIGKILL)
+        except OSError:
+            pass
+        try:
+            proc.communicate(timeout=10)
+        except Exception:
+            pass
+        return None
+
+
+def no_result(limit):
+    """what a run that was killed after `limit` seconds counts as: an outcome like any other, compared with the other runs"""
+    msg = "no result after %d s (process group killed)" % limit
+    return {k: (msg, "", None) for k in ("lint", "spdx", "spdxc")}
+
+
+def run_three_bounded(cwd, root_arg, flags, limit):
+    """run_three in a forked child of this process with a time limit (seconds) -> (raw result, timed out?)"""
+    sys.path.insert(0, os.path.dirname(HERE))
+    import cli
+    out = cli.run_bounded(lambda: json.dumps(run_three(cwd, root_arg, flags)), limit)
+    if out.startswith("timeout:"):
+        return no_result(limit), True
+    if out.startswith("EXC"):
+        return {k: (99, "", out[:200]) for k in ("lint", "spdx", "spdxc")}, False
+    return json.loads(out), False
 
 
 if __name__ == "__main__":
